@@ -57,7 +57,7 @@ package client
 //@   requires lock-free: !held(cj.mu)
 //@   requires list-not-pooled: listNoPooled(cj, host)
 //@   requires list-no-duplicates: listNoDup(cj, host)
-//@   modifies clockNow, jcPooled, ckKey, ckVal, jcPath, jcExp, heap(E_p_fasthttp_Cookie), heap(MV_string_LJp_fasthttp_Cookie), heap(MD_string_LJp_fasthttp_Cookie)
+//@   modifies clockNow, jcPooled, ckKey, ckVal, ckAttr, jcPath, jcExp, heap(E_p_fasthttp_Cookie), heap(MV_string_LJp_fasthttp_Cookie), heap(MD_string_LJp_fasthttp_Cookie)
 //@   lock cj.mu protects jcPooled inv jar-holds-no-pooled-cookie: listNoPooled(cj, host)
 //@   atcall @fasthttp.ReleaseCookie: only-expired-released-under-lock: held(cj.mu) && !jcLive(jcExp[c], clockNow)
 //@   loop 1
@@ -88,7 +88,7 @@ package client
 //@   requires lock-free: !held(cj.mu)
 //@   requires list-not-pooled: listNoPooled(cj, jarHost(str(host)))
 //@   requires list-no-duplicates: listNoDup(cj, jarHost(str(host)))
-//@   modifies clockNow, jcPooled, ckKey, ckVal, jcPath, jcExp, heap(E_p_fasthttp_Cookie), heap(MV_string_LJp_fasthttp_Cookie), heap(MD_string_LJp_fasthttp_Cookie)
+//@   modifies clockNow, jcPooled, ckKey, ckVal, ckAttr, jcPath, jcExp, heap(E_p_fasthttp_Cookie), heap(MV_string_LJp_fasthttp_Cookie), heap(MD_string_LJp_fasthttp_Cookie)
 //@   atcall (*CookieJar).getCookiesByHost: filed-under-host-without-port: host == jarHost(last(@utils.UnsafeString))
 //@   loop 1
 //@     invariant fresh-list: len(newCookies) <= i && i <= len(cookies) && cap(newCookies) == len(cookies) && arr(newCookies) != arr(cookies) && arr(newCookies) != 0 && off(newCookies) == 0
@@ -114,7 +114,7 @@ package client
 //@   requires lock-free: !held(cj.mu)
 //@   requires list-not-pooled: uri != nil ==> listNoPooled(cj, uHost(uri))
 //@   requires list-no-duplicates: uri != nil ==> listNoDup(cj, uHost(uri))
-//@   modifies clockNow, jcPooled, ckKey, ckVal, jcPath, jcExp, heap(E_p_fasthttp_Cookie), heap(MV_string_LJp_fasthttp_Cookie), heap(MD_string_LJp_fasthttp_Cookie)
+//@   modifies clockNow, jcPooled, ckKey, ckVal, ckAttr, jcPath, jcExp, heap(E_p_fasthttp_Cookie), heap(MV_string_LJp_fasthttp_Cookie), heap(MD_string_LJp_fasthttp_Cookie)
 //@   ensures no-uri-no-cookies: uri == nil ==> len(result) == 0
 //@   ensures only-live: !exists(j, 0, len(result), result[j] == nil || jcPooled[result[j]] || !jcLive(jcExp[result[j]], clockNow))
 //@   ensures only-cookie-path-prefix-of-request-path: !exists(j, 0, len(result), !pathMatch(uPath(uri), jcPath[result[j]]))
@@ -131,7 +131,7 @@ package client
 //@   requires lock-free: !held(cj.mu)
 //@   requires list-not-pooled: listNoPooled(cj, rHost(req))
 //@   requires list-no-duplicates: listNoDup(cj, rHost(req))
-//@   modifies jarHas, jarVal, clockNow, jcPooled, ckKey, ckVal, jcPath, jcExp, heap(E_p_fasthttp_Cookie), heap(MV_string_LJp_fasthttp_Cookie), heap(MD_string_LJp_fasthttp_Cookie)
+//@   modifies jarHas, jarVal, clockNow, jcPooled, ckKey, ckVal, ckAttr, jcPath, jcExp, heap(E_p_fasthttp_Cookie), heap(MV_string_LJp_fasthttp_Cookie), heap(MD_string_LJp_fasthttp_Cookie)
 //@   loop 1
 //@     invariant index-in-range: rangeindex + 1 <= len(cookies)
 //@     invariant sent-so-far: !exists(j, 0, rangeindex + 1, !jarHas[req.Header][ckKey[cookies[j]]])
@@ -154,7 +154,7 @@ package client
 //@   requires caller-holds-its-cookies: !exists(n, 0, len(cookies), cookies[n] == nil || jcPooled[cookies[n]])
 //@   requires given-cookies-are-not-the-jars: !exists(n, 0, jarLen(cj, jarHost(str(host))), exists(m, 0, len(cookies), jarAt(cj, jarHost(str(host)), n) == cookies[m]))
 //@   requires given-slice-is-not-the-jars: arr(cookies) == nil || !indom(cj.hostCookies, jarHost(str(host))) || arr(cookies) != arr(cj.hostCookies[jarHost(str(host))])
-//@   modifies jcPooled, ckKey, ckVal, jcPath, jcExp, cj.hostCookies, heap(E_p_fasthttp_Cookie), heap(MV_string_LJp_fasthttp_Cookie), heap(MD_string_LJp_fasthttp_Cookie)
+//@   modifies jcPooled, ckKey, ckVal, ckAttr, jcPath, jcExp, cj.hostCookies, heap(E_p_fasthttp_Cookie), heap(MV_string_LJp_fasthttp_Cookie), heap(MD_string_LJp_fasthttp_Cookie)
 //@   lock cj.mu protects jcPooled inv jar-holds-no-pooled-cookie: listNoPooled(cj, jarHost(str(old(host)))) && !exists(n, 0, len(cookies), cookies[n] == nil || jcPooled[cookies[n]])
 //@   atcall searchCookieByKeyAndPath: looks-up-this-cookie-under-lock: held(cj.mu) && str(key) == ckKey[cookie] && str(path) == jcPath[cookie]
 //@   atcall @fasthttp.AcquireCookie: only-for-a-cookie-not-yet-stored: held(cj.mu) && last(searchCookieByKeyAndPath) == nil
@@ -187,7 +187,7 @@ package client
 //@   requires caller-holds-its-cookies: !exists(n, 0, len(cookies), cookies[n] == nil || jcPooled[cookies[n]])
 //@   requires given-cookies-are-not-the-jars: uri != nil ==> !exists(n, 0, jarLen(cj, jarHost(uriHost(uri, epoch))), exists(m, 0, len(cookies), jarAt(cj, jarHost(uriHost(uri, epoch)), n) == cookies[m]))
 //@   requires given-slice-is-not-the-jars: uri == nil || arr(cookies) == nil || !indom(cj.hostCookies, jarHost(uriHost(uri, epoch))) || arr(cookies) != arr(cj.hostCookies[jarHost(uriHost(uri, epoch))])
-//@   modifies jcPooled, ckKey, ckVal, jcPath, jcExp, cj.hostCookies, heap(E_p_fasthttp_Cookie), heap(MV_string_LJp_fasthttp_Cookie), heap(MD_string_LJp_fasthttp_Cookie)
+//@   modifies jcPooled, ckKey, ckVal, ckAttr, jcPath, jcExp, cj.hostCookies, heap(E_p_fasthttp_Cookie), heap(MV_string_LJp_fasthttp_Cookie), heap(MD_string_LJp_fasthttp_Cookie)
 //@   atcall (*CookieJar).SetByHost: files-under-the-host-of-the-url: str(host) == uriHost(uri, epoch)
 //@   ensures last-given-cookie-is-stored: uri != nil && len(cookies) > 0 ==> exists(n, 0, jarLen(cj, jarHost(uriHost(uri, epoch))), sameAttrs(jarAt(cj, jarHost(uriHost(uri, epoch)), n), cookies[len(cookies) - 1]))
 //@   ensures no-uri-no-effect: uri == nil ==> cj.hostCookies == old(cj.hostCookies)
@@ -198,7 +198,7 @@ package client
 //@   requires list-exists: !indom(cj.hostCookies, jarHost(host)) || arr(cj.hostCookies[jarHost(host)]) == nil || allocated(arr(cj.hostCookies[jarHost(host)]))
 //@   requires list-not-pooled: listNoPooled(cj, jarHost(host))
 //@   requires list-no-duplicates: listNoDup(cj, jarHost(host))
-//@   modifies jcPooled, ckKey, ckVal, jcPath, jcExp, cj.hostCookies, heap(E_p_fasthttp_Cookie), heap(MV_string_LJp_fasthttp_Cookie), heap(MD_string_LJp_fasthttp_Cookie)
+//@   modifies jcPooled, ckKey, ckVal, ckAttr, jcPath, jcExp, cj.hostCookies, heap(E_p_fasthttp_Cookie), heap(MV_string_LJp_fasthttp_Cookie), heap(MD_string_LJp_fasthttp_Cookie)
 //@   ensures stored: exists(n, 0, jarLen(cj, jarHost(host)), ckKey[jarAt(cj, jarHost(host), n)] == key && ckVal[jarAt(cj, jarHost(host), n)] == value && jcPath[jarAt(cj, jarHost(host), n)] == "" && tUnlimited(jcExp[jarAt(cj, jarHost(host), n)]))
 //@   ensures list-not-pooled: listNoPooled(cj, jarHost(host))
 //@   ensures list-no-duplicates: listNoDup(cj, jarHost(host))
@@ -207,7 +207,7 @@ package client
 //@   requires list-exists: !indom(cj.hostCookies, jarHost(host)) || arr(cj.hostCookies[jarHost(host)]) == nil || allocated(arr(cj.hostCookies[jarHost(host)]))
 //@   requires list-not-pooled: listNoPooled(cj, jarHost(host))
 //@   requires list-no-duplicates: listNoDup(cj, jarHost(host))
-//@   modifies jcPooled, ckKey, ckVal, jcPath, jcExp, cj.hostCookies, heap(E_p_fasthttp_Cookie), heap(MV_string_LJp_fasthttp_Cookie), heap(MD_string_LJp_fasthttp_Cookie)
+//@   modifies jcPooled, ckKey, ckVal, ckAttr, jcPath, jcExp, cj.hostCookies, heap(E_p_fasthttp_Cookie), heap(MV_string_LJp_fasthttp_Cookie), heap(MD_string_LJp_fasthttp_Cookie)
 //@   ensures stored: exists(n, 0, jarLen(cj, jarHost(host)), ckKey[jarAt(cj, jarHost(host), n)] == old(str(key)) && ckVal[jarAt(cj, jarHost(host), n)] == old(str(value)) && jcPath[jarAt(cj, jarHost(host), n)] == "" && tUnlimited(jcExp[jarAt(cj, jarHost(host), n)]))
 //@   ensures list-not-pooled: listNoPooled(cj, jarHost(host))
 //@   ensures list-no-duplicates: listNoDup(cj, jarHost(host))
